@@ -89,7 +89,7 @@ func Nitro(wdt float64, subd int, zeit int, g *GlobalVarsMain, l *NitroSharedVar
 			}
 			if g.SAAT[g.AKF.Index] > 0 {
 				if zeit >= g.SAAT[g.AKF.Index] {
-					if g.ODU[g.AKF.Index] == 1 && g.ORGTIME[g.AKF.Index-1] == "S" {
+					if g.ODU[g.AKF.Index] == 1 && g.ORGTIME[g.AKF.Index] == "S" {
 						if zeit == g.SAAT[g.AKF.Index] {
 							g.ZTDG[g.AKF.Index] = zeit + g.ORGDOY[g.AKF.Index]
 						}
